@@ -241,10 +241,21 @@ impl<T: Send> MpmcShared<T> {
   }
 
   pub(crate) fn try_recv_core(&self) -> Result<T, TryRecvError> {
+    self.try_recv_core_for(std::ptr::null())
+  }
+
+  /// `try_recv_core` for a receive future / stream that may still be linked in
+  /// the waiter list from an earlier poll (`me` = its state flag): when it takes
+  /// an item without having been signalled, its entry is unlinked in the same
+  /// critical section, so no stale waiter is left to swallow a later wake.
+  pub(crate) fn try_recv_core_for(&self, me: *const AtomicU8) -> Result<T, TryRecvError> {
     let mut guard = self.internal.lock();
 
     // --- Priority 1: Check the main buffer first (Preserves strict FIFO) ---
     if let Some(item) = guard.pop_front() {
+      if !me.is_null() {
+        guard.waiting_async_receivers.retain(|w| w.state != me);
+      }
       if self.capacity > 0 {
         let mut i = 0;
         while i < guard.waiting_async_senders.len() {
@@ -404,6 +415,16 @@ impl<T: Send> MpmcShared<T> {
     out: &mut Vec<T>,
     max: usize,
   ) -> Result<usize, TryRecvError> {
+    self.try_recv_batch_core_for(out, max, std::ptr::null())
+  }
+
+  /// Batch counterpart of `try_recv_core_for`.
+  pub(crate) fn try_recv_batch_core_for(
+    &self,
+    out: &mut Vec<T>,
+    max: usize,
+    me: *const AtomicU8,
+  ) -> Result<usize, TryRecvError> {
     if max == 0 {
       return Ok(0);
     }
@@ -415,6 +436,9 @@ impl<T: Send> MpmcShared<T> {
     if from_buffer > 0 {
       guard.drain_into(out, from_buffer);
       got += from_buffer;
+      if !me.is_null() {
+        guard.waiting_async_receivers.retain(|w| w.state != me);
+      }
     }
 
     // --- Priority 2: Wake buffered senders (inside the lock) ---
@@ -488,7 +512,7 @@ impl<T: Send> MpmcShared<T> {
       return Poll::Ready(Ok(0));
     }
     'poll_loop: loop {
-      match self.try_recv_batch_core(out, max) {
+      match self.try_recv_batch_core_for(out, max, state_ptr) {
         Ok(k) => return Poll::Ready(Ok(k)),
         Err(TryRecvError::Disconnected) => return Poll::Ready(Err(RecvError::Disconnected)),
         Err(TryRecvError::Empty) => {}
@@ -538,7 +562,7 @@ impl<T: Send> MpmcShared<T> {
     state_ptr: *const AtomicU8,
   ) -> Poll<Result<T, RecvError>> {
     'poll_loop: loop {
-      match self.try_recv_core() {
+      match self.try_recv_core_for(state_ptr) {
         Ok(item) => {
           return Poll::Ready(Ok(item));
         }
